@@ -160,6 +160,12 @@ func (c *ctx) exec(cl *client, op *apiOp, serial uint32, answer [][]byte) (retur
 		c.panicked(frame, fmt.Sprintf("%s panicked on the %s path: %s", op.name, cl.path, msg), "api-reply", cs())
 		return false
 	}
+	if c.verbose {
+		for _, v := range vs {
+			fmt.Printf("library: value = %+v\n", v) // fmt shows a String() panic as %!v(PANIC=...)
+		}
+		fmt.Printf("library: error = %v\n", err)
+	}
 	if err != nil {
 		if p, msg, frame := vk.Guard(func() { _ = err.Error() }); p {
 			c.panicked(frame, fmt.Sprintf("the error returned by %s panicked in Error(): %s", op.name, msg), "api-reply", cs())
